@@ -123,6 +123,9 @@ package zh
 //@   loop 1 invariant sameMem(srcLiteral) && sameMem(l.Source)
 //@   loop 1 invariant [buffer-shape] (state == 1 ==> len(literalBuffer) == 1) && (state == 12 ==> len(literalBuffer) == 2) && (state == 13 ==> len(literalBuffer) == 3) &&
 //@             (state == 14 ==> len(literalBuffer) == 3 + hexCount && hexCount >= 1)
+//@   ensures [backtick-text-swallows-no-quote-but-a-lone-wrapped-one] forall j int :: old(l.cursor) < j && j <= l.cursor && j < len(l.Source) && isQuoteRune(l.Source[j]) ==> j == old(l.cursor) + 1 && l.cursor == old(l.cursor) + 2
+//@   loop 1 invariant [a-consumed-backtick-ends-the-escape] l.cursor > old(l.cursor) ==> charAt(l, l.cursor) != BackTick
+//@   loop 1 invariant [no-quote-consumed] forall j int :: old(l.cursor) < j && j <= l.cursor && j < len(l.Source) ==> !isQuoteRune(l.Source[j])
 //@   loop 1 invariant [not-a-lone-quote] l.cursor > old(l.cursor) ==> !(isQuoteRune(old(charAt(l, l.cursor + 1))) && old(charAt(l, l.cursor + 2)) == BackTick)
 //@   loop 1 decreases len(l.Source) - l.cursor
 
@@ -147,6 +150,7 @@ package zh
 //@   loop 1 step [line-breaks-verbatim] (ch == syntax.RuneCR || ch == syntax.RuneLF) ==> literal[prev(len(literal))] == ch &&
 //@             (breakLen(ch, prev(charAt(l, l.cursor + 2))) == 2 ? len(literal) == prev(len(literal)) + 2 && literal[prev(len(literal)) + 1] == prev(charAt(l, l.cursor + 2)) && l.cursor == prev(l.cursor) + 2
 //@                                                              : len(literal) == prev(len(literal)) + 1 && l.cursor == prev(l.cursor) + 1)
+//@   loop 1 step [backtick-text-goes-through-the-escape-decoder] ch == BackTick ==> @unescapeBackTickSpecialStr#1.count == prev(@unescapeBackTickSpecialStr#1.count) + 1 && literal == @unescapeBackTickSpecialStr#1.r0 && @unescapeBackTickSpecialStr#1.arg1 == prev(literal)
 //@   loop 1 step [depth] quoteNum == prev(quoteNum) + (ch == sch ? 1 : 0) - (ch == closingQuote(sch) ? 1 : 0)
 
 // ---- NextToken (C04 dispatch, C05 progress and error positions) ----
